@@ -4,7 +4,7 @@ import checklib as L
 from checks import seqlib as S
 
 TRUSTED = [
-    "Coq 8.16.1 kernel (coqc; vm_compute only in Examples)",
+    "Coq 8.16.1 kernel (coqc; vm_compute in Examples and in the per-run extraction cross-check: one history per quick run is evaluated inside Coq with the toy hash of Ctlog/Example.v and compared line by line with the extracted OCaml model run with the same hash)",
     "extraction (ExtrOcamlBasic only) + ocaml/util.ml, ocaml/sha256.ml (hand-written SHA-256, test vectors at start-up), ocaml/seq.ml",
     "Go harness harness/seq: simulated object/lock store with gates (fault, crash, hold injection), canonicalisation of checkpoints (opened with independently constructed verifiers), gunzip/tar expansion, waiter collection; harness/inject/internal/ctlog/zz_verif.go accessors (tag verif)",
     "model Ctlog/Model.v is a hand transcription of internal/ctlog/ctlog.go (CreateLog, LoadLog, addLeafToPool, uploadIssuer, sequence/sequencePool, RunSequencer stop path, cachePut/cacheGet); the tree is kept at specification level (roots = RFC 6962 MTH of the leaf list, tiles = rendering of the leaf list): that the incremental edge-tile computation of the code yields these values is what the byte-level digest comparison of every operation checks",
@@ -146,6 +146,24 @@ def main(prop, prop_v, tier, seed, replay, scenarios, own_prefixes, known_prefix
                     p = L.write_replay(prop, "correspondence.txt",
                                        "sequencer model <-> implementation correspondence no longer checks (%d histories differ); the monitors of %s found no history on which the property itself fails.\nfirst difference (history line %d):\nimpl : %s\nmodel: %s\n\nhistory:\n%s\n" % (len(diffs), prop, j, a, b, "\n".join(hist)))
                     res.violation(p, "model/implementation correspondence broken (%d histories)" % len(diffs), no_input=True)
+    # extraction cross-check: the shortest non-probe histories are evaluated inside Coq as well
+    xc = {"histories": 0, "events": 0}
+    if hexe and mexe and not replay:
+        cands = []
+        for job, text in zip(jobs, texts):
+            if job[1] in PROBES or text.startswith("HARNESSFAIL"):
+                continue
+            for h in S.split_raw([l for l in text.split("\n") if l]):
+                if 20 <= len(h) <= 400:
+                    cands.append(h)
+        cands.sort(key=len)
+        for n, h in enumerate(cands[: (1 if tier == "quick" else 6)]):
+            okx, nev, detail = S.vm_crosscheck(h, mexe, "%s_%d" % (prop, n))
+            if not okx:
+                p = L.write_replay(prop, "vm_crosscheck.txt", detail + "\n\nhistory:\n" + "\n".join(h))
+                res.violation(p, "extraction cross-check failed (Coq vm_compute vs extracted OCaml)", no_input=True)
+            else:
+                xc["histories"] += 1; xc["events"] += nev
     if not ok and not res.violations:
         res.violation(getattr(res, "coq_failure", None) or L.write_replay(prop, "coq_failure.txt", "proof stage failed"),
                       "theorems of %s no longer check; the differential run and the monitors found no failing history" % prop_v, no_input=True)
@@ -153,6 +171,7 @@ def main(prop, prop_v, tier, seed, replay, scenarios, own_prefixes, known_prefix
         "evaluations": nhist, "distinct_nontrivial": len(nontrivial),
         "rule": "one evaluation = one generated history (event list) run against real ctlog.Log instances and replayed by the extracted model; non-trivial = contains an injected fault, crash, tampering, duplicate or failed acknowledgement; distinct by digest of the canonical history",
         "traces_validated_against_impl": nhist - ndiff if nhist >= ndiff else 0,
+        "extraction_crosscheck_vm_compute": xc,
         "histories_differing": ndiff, "monitor_failures": nmon, "known_finding_hits": nknown,
         "monitor_checks_and_input_distribution": stats_total,
         "samples": samples + cov.get("theorems", [])[:3],
